@@ -183,6 +183,9 @@ pub struct LifeObs {
     /// blocks whose release failed at scope exit: (address, first 32 bytes as they are now)
     #[serde(default)]
     pub unreleased: Vec<(u64, Vec<u8>)>,
+    /// (address, first 32 bytes) of every mapping the injector held right before scope exit
+    #[serde(default)]
+    pub held_before_exit: Vec<(u64, Vec<u8>)>,
     pub drop_panicked: Option<String>,
     pub drop_log: Vec<LogEv>,
     /// (target index, bytes now, value if it was safe to call)
@@ -611,6 +614,13 @@ fn execute_inner(c: &HistCase, opts: &Opts) -> HistObs {
             // ---- exit
             crate::worker::phase("drop");
             let mark = ip::log_len();
+            if life.munmap_fault > 0 && detailed {
+                for g in &kept {
+                    if crate::maps::readable(g.0 as usize, 32) {
+                        lo.held_before_exit.push((g.0, crate::mem::read_direct(g.0 as usize, 32)));
+                    }
+                }
+            }
             ip::MUNMAP_FAIL_IN.store(life.munmap_fault as i64, SeqCst);
             match life.exit {
                 Exit::Normal => {
